@@ -7,6 +7,7 @@ prof, sd = sys.argv[1], int(sys.argv[2])
 pat = sys.argv[3] if len(sys.argv)>3 else None
 orig = actions._execute
 def wrapped(world, pre, r, do):
+    if "-p" in sys.argv: print("  >>", json.dumps(r, default=str), flush=True)
     try:
         return orig(world, pre, r, do)
     except Exception:
@@ -18,5 +19,7 @@ def hook(world, pre, post, r, res, viols):
     print(r["sid"], json.dumps({k:v for k,v in r.items() if k not in ("sid","client")}, default=str), "->", res.status, res.exc or "", runner.ret_digest(world,res.ret) if res.status=="ok" else "")
     for v in viols:
         print("     !!", v.props, v.oracle, v.failure, v.detail)
+    for b in post.blocks:
+        if b.D > 64: print("     big block", b.kind, b.members, b.dims, b.form, flush=True)
 rr = runner.execute_run(cfg, gen=g, step_hook=hook)
 print("ops", json.dumps(g.ops))
